@@ -155,6 +155,19 @@ def run_stream(spec, prop, schema):
                    c.get("path_variant", "full"), schema, prop)
         return col.result()
     allc = all_merge_configs()
+    # which arms of the list merger's chunk-type switch the workload reached (evidence only)
+    import nbdime.merging.generic as mg
+    from nbdime.merging.chunks import chunk_typename
+    real_chunks = mg.make_merge_chunks
+
+    def counted_chunks(base, ld, rd):
+        chunks = real_chunks(base, ld, rd)
+        for (_k, _e, d0, d1) in chunks:
+            t = "".join(chunk_typename(d0)) + "/" + "".join(chunk_typename(d1))
+            if t != "/":
+                col.count("chunktype:%s%s" % (t, ":string-lines" if isinstance(base, list) and base and isinstance(base[0], str) else ""))
+        return chunks
+    mg.make_merge_chunks = counted_chunks
     for k in range(spec["triples"]):
         gen = NBGen(r, exotic=(k % 5 == 0))
         minor = k % 6 if schema else None
